@@ -1359,6 +1359,8 @@ impl BufferParser for Parser {
                         } else {
                             1
                         };
+                        // there are at most `width` tab stops: later iterations stay on the last one
+                        let num = num.min(buf.terminal_state.get_width());
                         (0..num).for_each(|_| caret.set_x_position(buf.terminal_state.next_tab_stop(caret.get_position().x)));
                         buf.terminal_state.limit_caret_pos(buf, caret);
                         return Ok(CallbackAction::Update);
@@ -1377,6 +1379,8 @@ impl BufferParser for Parser {
                         } else {
                             1
                         };
+                        // there are at most `width` tab stops: later iterations stay on the first one
+                        let num = num.min(buf.terminal_state.get_width());
                         (0..num).for_each(|_| caret.set_x_position(buf.terminal_state.prev_tab_stop(caret.get_position().x)));
                         buf.terminal_state.limit_caret_pos(buf, caret);
                         return Ok(CallbackAction::Update);
